@@ -13,16 +13,79 @@ package snowflake_proxy
 //
 //@ func (t *tokens_t) get()
 //@   props C16
-//@   requires t != nil && t.clients >= 0 && t.clients < 1<<62
+//@   flag nooverflow
+//@   assumes t != nil
 //@   ensures t.clients == old(t.clients) + 1
 //@   ensures sends(t.ch) == old(sends(t.ch)) + ite(t.capacity != 0, 1, 0) && recvs(t.ch) == old(recvs(t.ch))
 //
 //@ func (t *tokens_t) ret()
 //@   props C16
-//@   requires t != nil && t.clients >= 1 && t.clients < 1<<62
+//@   flag nooverflow
+//@   assumes t != nil
 //@   ensures t.clients == old(t.clients) - 1
 //@   ensures recvs(t.ch) == old(recvs(t.ch)) + ite(t.capacity != 0, 1, 0) && sends(t.ch) == old(sends(t.ch))
 //
 //@ func (t tokens_t) count() (r int64)
 //@   props C16
 //@   ensures r == t.clients
+//
+// ---- session slots (C16) and the relay gate (C06) ----
+//@ ghost var slot int
+//@ ghost var hostOK bool
+//@ ghost var lastCount int64
+//@ ghost var atSelect bool
+//@ ghost var recvs0 mathint
+//
+// runSession owns one slot on entry. It releases it exactly once on every path, except when the client opened the
+// data channel: then the slot goes to the data channel handler (which releases it, see datachannelHandler).
+// A broker-supplied relay URL reaches the peer connection only if its hostname is inside the proxy's own pattern and
+// its scheme is wss (unless non-TLS relays were explicitly allowed); the handler gets that very URL.
+//@ func (sf *SnowflakeProxy) runSession(sid string)
+//@   props C16, C06
+//@   flag nosafety
+//@   requires sf != nil
+//@   at entry ghost slot = 1
+//@   at entry ghost hostOK = false
+//@   at entry ghost atSelect = false
+//@   at call select ghost atSelect = true
+//@   at call select ghost recvs0 = recvs(dataChan)
+//@   at call ret assert {never-releases-a-slot-it-does-not-hold} slot >= 1
+//@   at call ret ghost slot = slot - 1
+//@   after call IsMember ghost hostOK = ret0
+//@   at call NewNameMatcher assert {own-pattern} arg0 == sf.RelayDomainNamePattern
+//@   at call makePeerConnectionFromOffer assert {relay-url-gate} relayURL == "" || (hostOK && (sf.AllowNonTLSRelay || parsedRelayURL.Scheme == "wss"))
+//@   at call makePeerConnectionFromOffer assert {handler-gets-the-checked-url} dataChannelAdaptor.RelayURL == relayURL && dataChannelAdaptor.sf == sf
+//@   ensures {slot-released-once-or-handed-to-the-data-channel-handler} slot == 0 || (slot == 1 && atSelect && recvs(dataChan) == recvs0 + 1)
+//
+//@ func (sf *SnowflakeProxy) datachannelHandler(conn *webRTCConn, remoteAddr net.Addr, relayURL string)
+//@   props C16, C06
+//@   flag nosafety
+//@   requires sf != nil
+//@   at entry ghost slot = 1
+//@   at call ret assert {never-releases-a-slot-it-does-not-hold} slot >= 1
+//@   at call ret ghost slot = slot - 1
+//@   at call Parse assert {dials-the-checked-url-or-the-operators-own} arg0 == relayURL && (entry(relayURL) != "" ==> relayURL == entry(relayURL)) && (entry(relayURL) == "" ==> relayURL == sf.RelayURL)
+//@   ensures {slot-released-exactly-once-on-every-path} slot == 0
+//
+//@ func (d dataChannelHandlerWithRelayURL) datachannelHandler(conn *webRTCConn, remoteAddr net.Addr)
+//@   props C16, C06
+//@   flag nosafety
+//@   requires d.sf != nil
+//@   at call datachannelHandler assert {passes-the-stored-url} arg3 == d.RelayURL && arg0 == d.sf
+//
+// The load reported to the broker: a multiple of 8 not above the slots in use, computed afresh for every poll.
+//@ func (s *SignalingServer) pollOffer(sid string, proxyType string, acceptedRelayPattern string, shutdown chan struct{}) (offer *webrtc.SessionDescription, relayURL string)
+//@   props C16
+//@   flag nosafety
+//@   loop 1 invariant calls(count) == calls(EncodeProxyPollRequestWithRelayPrefix)
+//@   after call count ghost lastCount = ret0
+//@   at call EncodeProxyPollRequestWithRelayPrefix assert {load-is-a-fresh-multiple-of-8-not-above-the-slots-in-use} calls(count) == calls(EncodeProxyPollRequestWithRelayPrefix) + 1 && (lastCount >= 0 ==> arg3 % 8 == 0 && 0 <= arg3 && arg3 <= lastCount && lastCount - arg3 <= 7)
+//
+// The OnDataChannel callback: pion invokes it once per data channel the REMOTE client chooses to open, so it must be
+// safe under repeated invocation (no precondition), and it starts at most one handler per peer connection
+// (one slot, one handler).
+//@ func (sf *SnowflakeProxy) makePeerConnectionFromOffer$1(dc *webrtc.DataChannel)
+//@   props C16, C13
+//@   flag nosafety safety-close
+//@   assumes dataChan != nil && (closed(dataChan) ==> oncedone(&dataChanOnce))
+//@   ensures {at-most-one-handler-per-peer-connection} spawns(handler) <= 1 && (spawns(handler) == 1 ==> !old(closed(dataChan)))
